@@ -16,40 +16,38 @@ namespace EPV.Cmp
 open EPV.CmpSpec EPV.CmpFind
 
 theorem pairGeneral_conforms (m : Mode) (op : Op) (a b : Atom)
-    (h1 : trigTol false op a b = false) (h2 : trigPromotion false a b = false)
-    (h4 : trigUntyped op a b = false)
+    (h1 : trigTol op a b = false) (h2 : trigPromotion a b = false)
     (h5 : pairSpec m op a b ≠ .error .unsupported) (h6 : pairGeneral m op a b ≠ .error .unsupported)
-    (h8 : dtConsistent a b = true) (h9 : trigUntypedQN m a b = false) :
+    (h8 : dtConsistent a b = true) :
     pairGeneral m op a b = pairSpec m op a b := by
   cases hi : numRank a with
-  | some i => exact pairGeneral_conforms_GN m op a b i hi h1 h2 h4 h5 h6 h8 h9
+  | some i => exact pairGeneral_conforms_GN m op a b i hi h1 h2 h5 h6 h8
   | none =>
     cases a <;> simp [numRank] at hi
-    case str => exact pairGeneral_conforms_G1 m op _ b rfl h1 h2 h4 h5 h6 h8 h9
-    case bool => exact pairGeneral_conforms_G1 m op _ b rfl h1 h2 h4 h5 h6 h8 h9
-    case uri => exact pairGeneral_conforms_G1 m op _ b rfl h1 h2 h4 h5 h6 h8 h9
-    case qn => exact pairGeneral_conforms_G1 m op _ b rfl h1 h2 h4 h5 h6 h8 h9
-    case ua => exact pairGeneral_conforms_GU m op _ b rfl h1 h2 h4 h5 h6 h8 h9
-    case date => exact pairGeneral_conforms_G2 m op _ b rfl h1 h2 h4 h5 h6 h8 h9
-    case dtm => exact pairGeneral_conforms_G2 m op _ b rfl h1 h2 h4 h5 h6 h8 h9
-    case time => exact pairGeneral_conforms_G2 m op _ b rfl h1 h2 h4 h5 h6 h8 h9
-    case dur => exact pairGeneral_conforms_G3 m op _ b rfl h1 h2 h4 h5 h6 h8 h9
-    case ymd => exact pairGeneral_conforms_G5 m op _ b rfl h1 h2 h4 h5 h6 h8 h9
-    case dtd => exact pairGeneral_conforms_G6 m op _ b rfl h1 h2 h4 h5 h6 h8 h9
-    case hex => exact pairGeneral_conforms_G4 m op _ b rfl h1 h2 h4 h5 h6 h8 h9
-    case b64 => exact pairGeneral_conforms_G4 m op _ b rfl h1 h2 h4 h5 h6 h8 h9
+    case str => exact pairGeneral_conforms_G1 m op _ b rfl h1 h2 h5 h6 h8
+    case bool => exact pairGeneral_conforms_G1 m op _ b rfl h1 h2 h5 h6 h8
+    case uri => exact pairGeneral_conforms_G1 m op _ b rfl h1 h2 h5 h6 h8
+    case qn => exact pairGeneral_conforms_G1 m op _ b rfl h1 h2 h5 h6 h8
+    case ua => exact pairGeneral_conforms_GU m op _ b rfl h1 h2 h5 h6 h8
+    case date => exact pairGeneral_conforms_G2 m op _ b rfl h1 h2 h5 h6 h8
+    case dtm => exact pairGeneral_conforms_G2 m op _ b rfl h1 h2 h5 h6 h8
+    case time => exact pairGeneral_conforms_G2 m op _ b rfl h1 h2 h5 h6 h8
+    case dur => exact pairGeneral_conforms_G3 m op _ b rfl h1 h2 h5 h6 h8
+    case ymd => exact pairGeneral_conforms_G5 m op _ b rfl h1 h2 h5 h6 h8
+    case dtd => exact pairGeneral_conforms_G6 m op _ b rfl h1 h2 h5 h6 h8
+    case hex => exact pairGeneral_conforms_G4 m op _ b rfl h1 h2 h5 h6 h8
+    case b64 => exact pairGeneral_conforms_G4 m op _ b rfl h1 h2 h5 h6 h8
 
 /-- all pair-level finding triggers of a general comparison are off for the pair, and the pair lies
 in the lexical fragment on which model and specification are defined -/
 def PairClean (m : Mode) (op : Op) (a b : Atom) : Prop :=
-  trigTol false op a b = false ∧ trigPromotion false a b = false ∧
-  (trigUntyped op a b = false ∧ trigUntypedQN m a b = false) ∧
+  trigTol op a b = false ∧ trigPromotion a b = false ∧
   pairSpec m op a b ≠ .error .unsupported ∧ pairGeneral m op a b ≠ .error .unsupported ∧
   atomTzOK a = true ∧ atomTzOK b = true
 
 theorem pairGeneral_conforms_clean (m : Mode) (op : Op) (a b : Atom) (h : PairClean m op a b) :
     pairGeneral m op a b = pairSpec m op a b :=
-  pairGeneral_conforms m op a b h.1 h.2.1 h.2.2.1.1 h.2.2.2.1 h.2.2.2.2.1
-    (dtConsistent_of_tzOK a b h.2.2.2.2.2.1 h.2.2.2.2.2.2) h.2.2.1.2
+  pairGeneral_conforms m op a b h.1 h.2.1 h.2.2.1 h.2.2.2.1
+    (dtConsistent_of_tzOK a b h.2.2.2.2.1 h.2.2.2.2.2)
 
 end EPV.Cmp
